@@ -124,6 +124,7 @@ func run(prop, tier, repo, verif string, ov map[string][]byte, f propFunc, noEvi
 	meta := f(c)
 	runCopyRule(c, prop)
 	runDelegateRule(c, prop)
+	runPoolRule(c, prop)
 	if noEvidence {
 		verifTmp, _ := os.MkdirTemp("", "verifchk-variant")
 		defer os.RemoveAll(verifTmp)
